@@ -33,6 +33,7 @@ use domain::dep::octseq::OctetsBuilder;
 use domain::net::server::buf::VecBufSource;
 use domain::net::server::dgram::{self, DgramServer};
 use domain::net::server::message::{Request, UdpTransportContext};
+use domain::net::server::middleware::cookies::CookiesMiddlewareSvc;
 use domain::net::server::middleware::edns::EdnsMiddlewareSvc;
 use domain::net::server::middleware::mandatory::MandatoryMiddlewareSvc;
 use domain::net::server::service::{CallResult, Service, ServiceError, ServiceResult};
@@ -156,8 +157,16 @@ impl Service<Vec<u8>, ()> for TestSvc {
     }
 }
 
-type Stack = MandatoryMiddlewareSvc<Vec<u8>, EdnsMiddlewareSvc<Vec<u8>, TestSvc, ()>, ()>;
-fn stack(sh: &Shared) -> Stack { MandatoryMiddlewareSvc::new(EdnsMiddlewareSvc::new(TestSvc { sh: sh.clone() })) }
+/// The recommended stack: Mandatory over Edns over Cookies over the service.
+/// Requests without a COOKIE option from an address that is not on the deny
+/// list pass the cookies middleware unchanged (all T2 kinds rely on that).
+type Stack = MandatoryMiddlewareSvc<Vec<u8>, EdnsMiddlewareSvc<Vec<u8>, CookiesMiddlewareSvc<Vec<u8>, TestSvc, ()>, ()>, ()>;
+const COOKIE_SECRET: [u8; 16] = [0, 1, 2, 3, 4, 5, 6, 7, 8, 9, 10, 11, 12, 13, 14, 15];
+fn denied_addr() -> SocketAddr { "192.0.2.66:5353".parse().unwrap() }
+fn stack(sh: &Shared) -> Stack {
+    let cookies = CookiesMiddlewareSvc::new(TestSvc { sh: sh.clone() }, COOKIE_SECRET).with_denied_ips([denied_addr().ip()]);
+    MandatoryMiddlewareSvc::new(EdnsMiddlewareSvc::new(cookies))
+}
 
 // ------------------------------------------------------------------ requests
 
@@ -429,6 +438,100 @@ fn gen_tcp_case(r: &mut Rng, id: u16) -> SrvCase {
         *resp = pick_resp(r, near, qsz);
     }
     c
+}
+
+/// a raw datagram without records and without compression pointers: QDCOUNT above,
+/// at or below the questions present, trailing octets, shorter than a header, longer
+/// than the 1024-octet receive buffer
+fn gen_pad_datagram(r: &mut Rng, id: u16) -> Vec<u8> {
+    if r.chance(1, 6) {
+        // shorter than a header: the count octets that are present stay zero
+        let n = r.below(12) as usize;
+        let mut d = vec![(id >> 8) as u8, id as u8, (r.below(16) as u8) << 3 | r.below(8) as u8 & 0x7f, 0, 0, r.below(3) as u8, 0, 0, 0, 0, 0, 0];
+        if r.chance(1, 2) { d[2] &= 0x7f; }
+        d.truncate(n.max(0));
+        return d;
+    }
+    let labels: Vec<usize> = match r.below(4) { 0 => vec![], 1 => vec![1], 2 => vec![63, 63, 63, 61], _ => (0..r.range(1, 3)).map(|_| r.range(1, 12) as usize).collect() };
+    let qsz = qlen_of(&labels);
+    let nq = match r.below(6) { 0 => 0, 1 | 2 => 1, 3 => r.range(2, 6) as usize, 4 => 1100 / qsz, _ => r.range(1, (1000 / qsz) as u64) as usize };
+    let qd: usize = match r.below(8) { 0 => nq, 1 => nq + 1, 2 => nq + r.range(2, 40) as usize, 3 => 65535, 4 => nq.saturating_sub(1), 5 => 300, _ => nq };
+    let opcode: u8 = match r.below(8) { 0 => 1, 1 | 2 => 2, 3 => 4, 4 => 5, _ => 0 };
+    let b2 = (opcode << 3) | (r.below(2) as u8) | if r.chance(1, 10) { 0x80 } else { 0 };
+    let mut d = vec![(id >> 8) as u8, id as u8, b2, 0, (qd >> 8) as u8, qd as u8, 0, 0, 0, 0, 0, 0];
+    for _ in 0..nq {
+        for &l in &labels { d.push(l as u8); d.extend(std::iter::repeat(b'a').take(l)); }
+        d.push(0);
+        d.extend_from_slice(&[0, 1, 0, 1]);
+    }
+    // trailing octets: label lengths, bad label types, data; no compression pointers (>= 0xc0)
+    for _ in 0..r.below(7) { d.push(r.below(192) as u8); }
+    d
+}
+
+/// T2: what the datagram server makes of the zero-padded receive buffer
+async fn run_pad_cases(recs: &mut Vec<Rec>, cases: Vec<(Vec<u8>, Option<u16>)>, idx: &mut u64, only: Option<u64>) {
+    for (dg, cfg) in cases {
+        *idx += 1;
+        if only.map_or(false, |o| o != *idx) { continue; }
+        let line = format!("pad {} {}", hex(&dg), opt_str(cfg));
+        let mut config = dgram::Config::new();
+        config.set_max_response_size(cfg);
+        let sh = Shared::default();
+        let srv = Arc::new(DgramServer::with_config(MockSock::default(), VecBufSource, stack(&sh), config));
+        let sock = srv.source();
+        let s2 = srv.clone();
+        let handle = tokio::spawn(async move { s2.run().await });
+        PANICKED.store(false, Ordering::SeqCst);
+        sock.inject(dg.clone(), client_addr());
+        settle(20).await;
+        let outv = sock.take_out();
+        let obs = match outv.len() {
+            0 => "Ok None".to_string(),
+            1 => match view(&outv[0].1) {
+                Some(v) => format!("Ok len={} tc={} id={} cnt={},{},{},{} opt={} b2={} b3={} ottl={}", outv[0].1.len(), v.tc as u8, v.id, v.qd, v.an, v.ns, v.ar, v.opt as u8, v.b2, v.b3, v.ottl),
+                None => "Unparseable".into(),
+            },
+            n => format!("Multi {}", n),
+        };
+        recs.push(Rec::Case(line.clone(), obs, "pad"));
+        chk(recs, !PANICKED.load(Ordering::SeqCst) && !handle.is_finished(), "panic_server", &line, "a server task panicked".into());
+        chk(recs, outv.len() <= 1, "duplicate_response", &line, format!("{} datagrams for one datagram", outv.len()));
+        // what the datagram itself holds: complete questions among its own octets
+        let own_questions = {
+            let mut n = 0usize; let mut i = 12usize;
+            let qd = if dg.len() >= 6 { ((dg[4] as usize) << 8) | dg[5] as usize } else { 0 };
+            let lim = dg.len().min(1024);
+            'q: while n < qd && i < lim {
+                let mut j = i;
+                loop {
+                    if j >= lim { break 'q; }
+                    let l = dg[j] as usize;
+                    if l == 0 { j += 1; break; }
+                    if l > 63 || j - i + 1 + l > 254 { break 'q; }
+                    j += 1 + l;
+                }
+                if j + 4 > lim { break; }
+                i = j + 4; n += 1;
+            }
+            n
+        };
+        // the response must not be made from octets that were never received: nothing at all for a
+        // datagram shorter than a header, no more questions than the datagram holds
+        chk(recs, dg.len() >= 12 || outv.is_empty(), "udp_padding_parsed_as_request", &line, format!("a datagram of {} octets (shorter than a DNS header) was answered", dg.len()));
+        for (_, d) in &outv {
+            if let Some(v) = view(d) {
+                chk(recs, dg.len() < 12 || (v.qd as usize) <= own_questions, "udp_padding_parsed_as_request", &line,
+                    format!("the {}-octet datagram holds {} complete questions, the {}-octet response carries {}", dg.len(), own_questions, d.len(), v.qd));
+            }
+        }
+        for (_, d) in &outv {
+            chk(recs, view(d).is_some(), "tc_malformed", &line, "response does not parse".into());
+            chk(recs, d.len() <= text_limit(None, cfg), "udp_oversize", &line, format!("{} octets sent, the property allows {}", d.len(), text_limit(None, cfg)));
+        }
+        let _ = srv.shutdown();
+        settle(2).await;
+    }
 }
 
 /// T2 + oracle: one request on a StreamServer connection (EDNS non-UDP arm, keepalive option)
@@ -846,6 +949,14 @@ fn main() {
         push(&|c| { c.nq = 0; });
     }
     for i in 0..n_srv { srv_cases.push(gen_srv_case(&mut r, (0x3100 + i) as u16)); }
+    let n_pad = if a.thorough { 8_000 } else { 1_000 } * scale;
+    let mut pad_cases: Vec<(Vec<u8>, Option<u16>)> = vec![
+        (vec![], Some(1232)), (vec![0xab], Some(1232)), (vec![0xab, 0xcd], None), (vec![0xab, 0xcd, 0x10, 0, 0, 2], Some(512)),
+        (vec![0x12, 0x34, 0x10, 0, 0xff, 0xff, 0, 0, 0, 0, 0, 0], Some(1232)),                    // STATUS, QDCOUNT 65535, nothing else
+        (vec![0x12, 0x35, 0x10, 0, 0, 200, 0, 0, 0, 0, 0, 0, 1, b'a', 0, 0, 1, 0, 1], Some(4096)), // one question, QDCOUNT 200
+        (vec![0x12, 0x36, 0x00, 0, 0, 3, 0, 0, 0, 0, 0, 0, 1, b'a', 0, 0, 1, 0, 1], Some(1232)),   // QUERY, QDCOUNT 3
+    ];
+    for i in 0..n_pad { let d = gen_pad_datagram(&mut r, (0xa000 + (i % 0x1000)) as u16); pad_cases.push((d, *r.pick(&[None, Some(512), Some(1232), Some(4096)]))); }
     let n_tcp = if a.thorough { 6_000 } else { 800 } * scale;
     let mut tcp_cases: Vec<SrvCase> = vec![];
     {
@@ -879,9 +990,11 @@ fn main() {
         let mut rr = Rng(seed2);
         let mut recs: Vec<Rec> = vec![];
         run_srv_cases(&mut recs, srv_cases, &mut idx, only).await;
+        run_pad_cases(&mut recs, pad_cases, &mut idx, only).await;
         run_tcp_cases(&mut recs, tcp_cases, &mut idx, only).await;
         run_conn_cases(&mut recs, conn_cases, &mut idx, only).await;
         run_dgram(&mut recs, &mut rr, n_dg, &mut idx, only).await;
+        run_cookies(&mut recs, &mut rr, n_dg * 2, &mut idx, only).await;
         run_stream(&mut recs, &mut rr, n_st, &mut idx, only).await;
         for (n, d) in [(10usize, 0u64), (11, 0), (40, 0), (10, 25), (12, 25)] { run_burst(&mut recs, n, d, &mut idx, only).await; }
         recs
@@ -1151,6 +1264,99 @@ fn run_slow_reader(n: usize, pause_ms: u64, wt_ms: u64, delay_ms: u64) -> (usize
     })
 }
 
+/// DNS cookies (RFC 7873) in the stack: requests carrying a COOKIE option of every
+/// shape, from an ordinary and from a denied address.  Whatever the middleware
+/// answers itself (pre-fetch reply, BADCOOKIE, FORMERR, REFUSED+TC) is subject
+/// to the same oracle: one datagram, request id, size, TC shape, parses.
+async fn run_cookies(recs: &mut Vec<Rec>, r: &mut Rng, rounds: u64, idx: &mut u64, only: Option<u64>) {
+    for round in 0..rounds {
+        *idx += 1;
+        if only.map_or(false, |o| o != *idx) { continue; }
+        let cfg_in: Option<u16> = *r.pick(&[None, Some(512), Some(1232), Some(4096)]);
+        let mut config = dgram::Config::new();
+        config.set_max_response_size(cfg_in);
+        let sh = Shared::default();
+        let srv = Arc::new(DgramServer::with_config(MockSock::default(), VecBufSource, stack(&sh), config));
+        let sock = srv.source();
+        let s2 = srv.clone();
+        let handle = tokio::spawn(async move { s2.run().await });
+        PANICKED.store(false, Ordering::SeqCst);
+        let k = r.range(2, 8);
+        let mut sent: Vec<(u16, Vec<u8>, Option<u16>, SocketAddr, bool)> = vec![];
+        let mut desc = format!("cookies round={} cfg={}", round, opt_str(cfg_in));
+        for j in 0..k {
+            let id = 0x9000u16 + (round * 8 + j) as u16;
+            let nq: usize = match r.below(6) { 0 => 0, 1 => r.range(2, 120) as usize, _ => 1 };
+            let opcode: u8 = if nq > 1 { 2 } else { 0 };
+            let client = pick_size(r);
+            let cookie: Vec<u8> = match r.below(7) {
+                0 => vec![],                                   // OPT without COOKIE
+                1 => r.bytes(8),                               // client cookie only
+                2 => r.bytes(24),                              // client + (invalid) server cookie
+                3 => r.bytes(16),                              // shortest server cookie
+                4 => r.bytes(40),                              // longest
+                5 => { let n = *r.pick(&[1usize, 7, 9, 15, 41, 60]); r.bytes(n) } // malformed lengths
+                _ => r.bytes(8),
+            };
+            let with_opt = !(cookie.is_empty() && r.chance(1, 2));
+            let mut q = vec![(id >> 8) as u8, id as u8, opcode << 3 | 1, 0, (nq >> 8) as u8, nq as u8, 0, 0, 0, 0, 0, with_opt as u8];
+            for _ in 0..nq { q.extend_from_slice(&[1, b'a', 0, 0, 1, 0, 1]); }
+            if with_opt {
+                let rdlen = if cookie.is_empty() { 0 } else { 4 + cookie.len() };
+                q.extend_from_slice(&[0, 0, 41, (client >> 8) as u8, client as u8, 0, 0, 0, 0, (rdlen >> 8) as u8, rdlen as u8]);
+                if !cookie.is_empty() { q.extend_from_slice(&[0, 10, 0, cookie.len() as u8]); q.extend_from_slice(&cookie); }
+            }
+            let from = if r.chance(1, 3) { denied_addr() } else { client_addr() };
+            desc.push_str(&format!(" {}:{}", if from == denied_addr() { "D" } else { "Q" }, hex(&q)));
+            sock.inject(q.clone(), from);
+            sent.push((id, q, if with_opt { Some(client) } else { None }, from, nq == 0));
+            if r.chance(1, 2) { settle(r.range(1, 10)).await; }
+        }
+        settle(100).await;
+        recs.push(Rec::Oracle(desc.clone(), "cookies_round"));
+        let outv = sock.take_out();
+        let cfg = cfg_in.map(|v| v.clamp(512, 4096));
+        let calls = sh.calls.lock().unwrap().clone();
+        for (id, q, client, from, _prefetch) in &sent {
+            let mine: Vec<&(SocketAddr, Vec<u8>)> = outv.iter().filter(|(_, d)| d.len() >= 2 && d[0] == (*id >> 8) as u8 && d[1] == *id as u8).collect();
+            let case = format!("cookies cfg={} from={} req={}", opt_str(cfg), from, hex(q));
+            chk(recs, mine.len() >= 1, "missing_response", &case, "no datagram".into());
+            chk(recs, mine.len() <= 1, "duplicate_response", &case, format!("{} datagrams", mine.len()));
+            for (a, d) in mine {
+                recs.push(Rec::Count("n_cookie_responses"));
+                if d.len() >= 12 {
+                    // which of the middleware's own answers were seen (coverage only)
+                    let by_svc = calls.iter().any(|c| c.0 == *id);
+                    recs.push(Rec::Count(match (by_svc, d[3] & 0x0f, d[2] & 2 != 0) {
+                        (true, _, _) => "cookie_passed_to_service",
+                        (false, 0, _) => "cookie_prefetch_reply",
+                        (false, 1, _) => "cookie_formerr",
+                        (false, 5, true) => "cookie_refused_tc",
+                        (false, 7, _) => "cookie_badcookie",
+                        _ => "cookie_other",
+                    }));
+                }
+                chk(recs, a == from, "wrong_destination", &case, format!("sent to {}", a));
+                // the question is asserted only for responses of the service (the middleware's own
+                // FORMERR / REFUSED answers carry no question section)
+                let by_service = calls.iter().any(|c| c.0 == *id);
+                let mut sub = vec![]; std::mem::swap(recs, &mut sub);
+                let mut o = SubOut { recs: sub };
+                let req_for_oracle: Vec<u8> = if by_service { q.clone() } else { q[..2].to_vec() };
+                oracle_udp_rec(&mut o, &case, &req_for_oracle, *client, cfg, None, d);
+                *recs = o.recs;
+            }
+        }
+        sock.inject(mk_query(0xfefe, 1, &[5], 1, None), client_addr());
+        settle(50).await;
+        let fin = sock.take_out();
+        chk(recs, fin.iter().any(|(_, d)| d.len() >= 2 && d[0] == 0xfe && d[1] == 0xfe) && !handle.is_finished() && !PANICKED.load(Ordering::SeqCst),
+            "panic_server", &desc, "server dead or a task panicked after this round".into());
+        let _ = srv.shutdown();
+        settle(5).await;
+    }
+}
+
 /// many requests written at once on one connection: every one must be answered
 async fn run_burst(recs: &mut Vec<Rec>, n: usize, delay_ms: u64, idx: &mut u64, only: Option<u64>) {
     *idx += 1;
@@ -1179,7 +1385,8 @@ fn oracle_udp_rec(o: &mut SubOut, case: &str, req: &[u8], client: Option<u16>, c
     let v = match view(bytes) { Some(v) => v, None => { chk(recs, false, "tc_malformed", case, "response does not parse".into()); return; } };
     let rid = ((req[0] as u16) << 8) | req[1] as u16;
     chk(recs, v.id == rid, "id_mismatch", case, format!("request id {} response id {}", rid, v.id));
-    if let Some(q) = question_of(req) { chk(recs, v.question == q, "question_mismatch", case, "question section differs".into()); }
+    // questions that do not fit the limit are left out of a truncated response (TC set): a prefix then
+    if let Some(q) = question_of(req) { chk(recs, v.question == q || (v.tc && q.starts_with(&v.question)), "question_mismatch", case, "question section differs".into()); }
     // a limit below 512 cannot be configured (dgram::Config clamps to 512..=4096):
     // such hints exist only at the API and are judged by T2 against the model alone
     if matches!(cfg, Some(h) if h < 512) { return; }
